@@ -56,7 +56,7 @@ func (k msgServer) Renew(goCtx context.Context, msg *types.MsgRenew) (*types.Msg
 		Result: make([]*types.KV, 0),
 	}
 
-	pool, found := k.node.GetPool(ctx)
+	_, found := k.node.GetPool(ctx)
 	if !found {
 		return nil, sdkerrors.Wrapf(nodetypes.ErrPoolNotFound, "pool not found")
 	}
@@ -197,7 +197,6 @@ dataLoop:
 			continue
 		}
 
-		totalPledgeChange := sdk.NewInt(0)
 		var newExpiredAt uint64 = 0
 		for _, shard := range shards {
 			if shard.Status == ordertypes.ShardMigrating {
@@ -232,12 +231,11 @@ dataLoop:
 					}
 					k.node.SetPledgeDebt(ctx, pledgeDebt)
 				}
-				totalPledgeChange = totalPledgeChange.Add(extraPledge.Amount)
-
 				shard.Pledge = newPledge
 
+				// the top-up is shard collateral: ShardRelease takes shard.Pledge out of TotalShardPledged
 				pledge, _ := k.node.GetPledge(ctx, shard.Sp)
-				pledge.TotalStoragePledged = pledge.TotalStoragePledged.Add(extraPledge)
+				pledge.TotalShardPledged = pledge.TotalShardPledged.Add(extraPledge)
 				k.node.SetPledge(ctx, pledge)
 			}
 
@@ -260,11 +258,6 @@ dataLoop:
 
 		k.model.ExtendMetaDuration(ctx, metadata.DataId, newExpiredAt)
 		k.model.UpdateMeta(ctx, newOrder)
-
-		if !totalPledgeChange.IsZero() {
-			pool.TotalPledged.Amount = pool.TotalPledged.Amount.Add(totalPledgeChange)
-			k.node.SetPool(ctx, pool)
-		}
 
 		kv := &types.KV{
 			K: dataId,
